@@ -271,10 +271,19 @@ def shape_functions(tier):
         grp(R.I(min(c, 3)), [("countdown", "mixed @F() { int c, n; c = %d; n = 0; while (c--) { n++; if (n == 3) break; } return n; }" % c),
                              ("plain", "mixed @F() { int c, n; c = %d; n = 0; while (c > 0) { c = c - 1; n++; if (n == 3) break; } return n; }" % c),
                              ("mixedc", "mixed @F() { mixed c, n; c = %d; n = 0; while (c--) { n++; if (n == 3) break; } return n; }" % c)])
+    # ---- loop bounds and counters beyond 32 bits (constant bound = the loop_cond_number opcode, variable bound = loop_cond_local)
+    for start, end in ((0, 1 << 32), ((1 << 32) - 5, (1 << 32) + 5), (-(1 << 32) - 3, -(1 << 32) + 3), (5, (1 << 32) + 5)):
+        cnt = min(end - start, 12)
+        grp(R.A([R.I(cnt), R.I(start + cnt)]),
+            [("forconst", "mixed @F() { int i, n; for (i = %s; i < %s; i++) { n++; if (n == 12) { i++; break; } } return ({ n, i }); }" % (lit(R.I(start)), lit(R.I(end)))),
+             ("forvar", "mixed @F() { int i, n, e; e = %s; for (i = %s; i < e; i++) { n++; if (n == 12) { i++; break; } } return ({ n, i }); }" % (lit(R.I(end)), lit(R.I(start)))),
+             ("while", "mixed @F() { int i, n; i = %s; while (i < %s) { n++; i = i + 1; if (n == 12) break; } return ({ n, i }); }" % (lit(R.I(start)), lit(R.I(end)))),
+             ("mixedv", "mixed @F() { mixed i, n, e; n = 0; e = %s; for (i = %s; i < e; i++) { n++; if (n == 12) { i++; break; } } return ({ n, i }); }" % (lit(R.I(end)), lit(R.I(start))))])
     # ---- switch vs if-chain
-    tables = {"dense": [1, 2, 3, 4, 5, 6], "sparse": [-100003, 0, 7, 100003, 1 << 33, -(1 << 40)], "two": [0, 1 << 32],
+    tables = {"dense64": [(1 << 32) + k for k in range(1, 7)], "densemin": [-(1 << 63) + k for k in range(0, 5)], "densemax": [(1 << 63) - 1 - k for k in range(4, -1, -1)],
+              "dense": [1, 2, 3, 4, 5, 6], "sparse": [-100003, 0, 7, 100003, 1 << 33, -(1 << 40)], "two": [0, 1 << 32],
               "ranges": [(-5, -1), (0, 0), (10, 20), (1 << 32, (1 << 32) + 5)]}
-    probes = [-(1 << 40), -100003, -6, -5, -1, 0, 1, 3, 6, 7, 8, 10, 15, 20, 21, 100003, 1 << 32, (1 << 32) + 5, (1 << 32) + 6, 1 << 33, (1 << 33) + 1, (1 << 63) - 1, 4294967303]
+    probes = [-(1 << 63), -(1 << 63) + 2, (1 << 63) - 3, (1 << 32) + 1, (1 << 32) + 6, (1 << 32) + 7, -(1 << 40), -100003, -6, -5, -1, 0, 1, 3, 6, 7, 8, 10, 15, 20, 21, 100003, 1 << 32, (1 << 32) + 5, (1 << 32) + 6, 1 << 33, (1 << 33) + 1, (1 << 63) - 1, 4294967303]
     for name, tb in tables.items():
         cases, chain = [], []
         for k, c in enumerate(tb):
